@@ -697,6 +697,14 @@ fn c17_from_c12(v: Vec<Finding>) -> Vec<Finding> {
 		.collect()
 }
 
+/// C07 findings about an accepted duplicate, read as C15 findings
+fn c15_from_c07(v: Vec<Finding>) -> Vec<Finding> {
+	v.into_iter()
+		.filter(|f| f.prop == "C07" && f.sig.starts_with("false-negative"))
+		.map(|f| Finding { prop: "C15", sig: format!("checked-constructor-accepts-a-lock-listed-twice|{}", f.sig), ..f })
+		.collect()
+}
+
 /// C12 findings about calls whose closure panicked, read as C11 findings
 fn c11_from_c12(v: Vec<Finding>) -> Vec<Finding> {
 	v.into_iter()
@@ -759,6 +767,9 @@ pub fn replay_findings(path: &str, verbose: bool) -> Result<(String, Vec<Finding
 			let mut f = mine(&prop, &r);
 			if prop == "C07" {
 				f.extend(c07_eval(&case, &r).0);
+			}
+			if prop == "C15" {
+				f.extend(c15_from_c07(c07_eval(&case, &r).0));
 			}
 			if c.get("c12").is_some() {
 				let api = c["c12"]["api"].as_str().unwrap_or("?").to_string();
@@ -1958,7 +1969,23 @@ fn types_check(prop: &'static str, tier: Tier, seed: u64) -> i32 {
 	types_campaign(&mut ctx, prop, tier, quick_n);
 	match prop {
 		"C14" => runtime_half(&mut ctx, prop, tier, &["C06", "C03"], "C03"),
-		_ => runtime_half(&mut ctx, prop, tier, &["C02"], "C02"),
+		_ => {
+			runtime_half(&mut ctx, prop, tier, &["C02"], "C02");
+			// "constructors that skip the duplicate check require unsafe or owned
+			// inputs": a checked constructor that lets a duplicate through IS such
+			// a constructor, for a borrowed input, in safe code (C07's differential
+			// against the duplicate model, acceptances only)
+			let n = tier.pick(40_000, 800_000);
+			ctx.search("runtime-half-checked-constructors-refuse-duplicates", n, 200, |bytes, want| {
+				let mut rep = c07_random_eval(bytes, want);
+				let keep = c15_from_c07(rep.violations.drain(..).collect());
+				if keep.is_empty() {
+					rep.replay = None;
+				}
+				rep.violations = keep;
+				rep
+			});
+		}
 	}
 	ctx.finish()
 }
